@@ -5,7 +5,13 @@ ThrottleStreamIO, run under a virtual clock with exact rational (fractions.Fract
 limits (the code is duck-typed: every value it computes is an exact rational), plus a float stream
 on dyadic inputs; the property oracle (the cumulative inequality, evaluated on the REAL trace,
 independent of the model); the wiring facts of Gen/Wiring.v against object identities in a live
-loopback session; thorough tier: end-to-end loopback transfers with small limits in real time.
+loopback session; end-to-end in VIRTUAL time on harness/simnet.py (real Server + Client: limit levels x direction x
+sessions x timeouts on the limited side; login histories under a per-user limit); thorough tier: end-to-end
+loopback transfers with small limits in real time.
+
+Streams of the virtual-clock traces may carry read/write timeouts (the event loop's timers are virtual too), a socket
+I/O that outlasts its timeout ends in asyncio.TimeoutError (model event Abort), and ANY exception the implementation
+raises is an event of the trace ("raise": model says X, implementation raised E), never the end of the run.
 
 How the real code is driven (nothing in /repo is edited):
   * `asyncio.sleep` (looked up as `asyncio.sleep` by aioftp.common at call time) is replaced, while a
@@ -47,8 +53,13 @@ LEVEL_TEXT = (
     "C15_single_stream_bound, C15_no_excess_delay, C15_sys_projects, C15_tightest_governs_max, "
     "C15_tightest_governs_all, C15_sys_shared_bound, C15_independent, C15_clone_no_memory, C15_off_is_free(_one), "
     "C15_round_half_even_error are proved for every positive rational limit, every reset period >= 0, every number of "
-    "streams and throttle objects and every interleaving of evaluate/start/complete events with arbitrary block sizes "
-    ">= 0, durations and gaps (Closed under the global context). The bound that holds is L*(t - t0) + r/2 + blocks in "
+    "streams and throttle objects and every interleaving of evaluate/start/complete/ABORT events (an operation that ends "
+    "without append: timeout of the timed socket I/O, connection error, cancellation) with arbitrary block sizes "
+    ">= 0, durations and gaps (Closed under the global context). C15_timed_end_spec, C15_timeout_does_not_move_start, "
+    "C15_timed_op_in_model: every read/readline/write on a stream with ANY read/write timeout is such a trace, its I/O "
+    "starts at the throttles' wake time whatever the timeout. C15_per_user_shared_over_histories: after any history of "
+    "logins, re-logins and disconnects two live sessions hold the same per-user object iff they have the same user "
+    "(C15_per_user_pop_refuted otherwise). The bound that holds is L*(t - t0) + r/2 + blocks in "
     "flight with r <= (t - t0)/reset_rate resets; the literal bound of the property text (no r/2) is refuted "
     "(C15_literal_bound_refuted, finding F15). C15_wiring is a closed vm_compute obligation over facts regenerated "
     "from the source on every run. The model is hand-written; its tie is a differential correspondence (thousands of "
@@ -84,14 +95,39 @@ IN_WAIT = contextvars.ContextVar("c15_in_wait", default=None)
 RUN = None  # the Recorder of the case being run
 
 
+class VTimer:
+    """what loop.call_later / call_at return on the virtual loop (asyncio.TimerHandle look-alike): the
+    timers of asyncio.wait_for / asyncio.timeout / asyncio.wait(timeout=) live on the same exact heap
+    as the virtual sleeps"""
+
+    __slots__ = ("_when", "cb", "args", "context", "_cancelled")
+
+    def __init__(self, when, cb, args, context):
+        self._when, self.cb, self.args, self.context, self._cancelled = when, cb, args, context, False
+
+    def cancel(self):
+        self._cancelled = True
+
+    def cancelled(self):
+        return self._cancelled
+
+    def when(self):
+        return self._when
+
+
 class VClock:
     def __init__(self, now):
         self.now = now
         self.heap = []
         self.seq = 0
+        self.loop = None
 
     def park(self, delay, fut):
         heapq.heappush(self.heap, (self.now + delay, self.seq, fut))
+        self.seq += 1
+
+    def park_at(self, when, item):
+        heapq.heappush(self.heap, (when, self.seq, item))
         self.seq += 1
 
     def advance(self):
@@ -103,22 +139,52 @@ class VClock:
         if when > self.now:
             self.now = when
         while self.heap and self.heap[0][0] == when:
-            _, _, fut = heapq.heappop(self.heap)
-            if not fut.cancelled():
-                fut.set_result(None)
+            _, _, item = heapq.heappop(self.heap)
+            if item.cancelled():
+                continue
+            if isinstance(item, VTimer):
+                self.loop.call_soon(item.cb, *item.args, context=item.context)
+            else:
+                item.set_result(None)
         return True
 
 
 class VLoop(asyncio.SelectorEventLoop):
+    """time() is the virtual clock (an exact Fraction, or a float in the float stream); call_later /
+    call_at park on the virtual heap, so nothing ever waits in real time"""
+
     def __init__(self, vc):
         super().__init__()
         self.vc = vc
+        vc.loop = self
+
+    def time(self):
+        return self.vc.now
+
+    def call_later(self, delay, callback, *args, context=None):
+        return self.call_at(self.vc.now + delay, callback, *args, context=context)
+
+    def call_at(self, when, callback, *args, context=None):
+        t = VTimer(when, callback, args, context)
+        self.vc.park_at(when, t)
+        return t
 
     def _run_once(self):
         if not self._ready and not self._stopping:
             if not self.vc.advance() and not self._scheduled:
                 raise RuntimeError("virtual clock: nothing ready and nothing parked (deadlock)")
         super()._run_once()
+
+    def shutdown(self):
+        """cancel what a case left behind (e.g. throttle wait tasks nobody awaits any more) and close"""
+        try:
+            pending = [t for t in asyncio.all_tasks(self) if not t.done()]
+            for t in pending:
+                t.cancel()
+            if pending:
+                self.run_until_complete(asyncio.gather(*pending, return_exceptions=True))
+        finally:
+            self.close()
 
 
 async def vsleep(delay, result=None):
@@ -178,15 +244,18 @@ class Patched:
 class FakeReader:
     def __init__(self):
         self.next = (0, 0)
+        self.completed = 0  # socket I/Os that returned (whatever happened afterwards)
 
     async def read(self, count=-1):
         dur, n = self.next
         await vsleep(dur)
+        self.completed += 1
         return b"x" * n
 
     async def readline(self):
         dur, n = self.next
         await vsleep(dur)
+        self.completed += 1
         return b"x" * (n - 1) + b"\n" if n > 0 else b""
 
 
@@ -194,12 +263,14 @@ class FakeWriter:
     def __init__(self):
         self.next = (0, 0)
         self.written = 0
+        self.completed = 0
 
     def write(self, data):
         self.written += len(data)
 
     async def drain(self):
         await vsleep(self.next[0])
+        self.completed += 1
 
     def close(self):
         pass
@@ -233,6 +304,7 @@ class Recorder:
         self.events = []  # dicts: kind, actor, t, n, wake (filled later), state snapshot
         self.cur_eval = {}  # actor -> index of the Eval event of the operation in progress
         self.sleeps = {}  # actor -> list of wake instants requested by its wait tasks
+        self.ops = []  # one record per mode-A operation (and per raising operation): timeout, start, duration, outcome
 
     def snap(self):
         return [(t._limit, t.reset_rate, t._start, t._sum) for t in self.objs]
@@ -258,6 +330,14 @@ class Recorder:
 
     def on_done(self, a, now, n):
         self.events.append({"k": "done", "a": a, "t": now, "n": n, "snap": self.snap()})
+
+    def on_raise(self, a, now, exc, moved, expected):
+        """the operation of actor a ended with an exception at `now`; `moved` = bytes of a socket I/O that
+        had completed before it was raised (0 when the I/O itself was cut); `expected` = the timed
+        region's own asyncio.TimeoutError, which the model predicts (timed_end)"""
+        self.events.append({"k": "raise", "a": a, "t": now, "exc": exc, "n": moved, "expected": expected,
+                            "snap": self.snap()})
+        self.cur_eval.pop(a, None)
 
     def on_setlimit(self, k, v):
         self.events.append({"k": "setlimit", "id": k, "v": v, "snap": self.snap()})
@@ -286,9 +366,21 @@ def build(case, flt=False):
         dicts.append(d)
     streams = []
     for ac in case["actors"]:
-        st = aioftp.ThrottleStreamIO(FakeReader(), FakeWriter(), throttles=dicts[ac["dict"]])
+        kw = {}
+        for name, v in zip(("timeout", "read_timeout", "write_timeout"), ac.get("tmo") or (None, None, None)):
+            if v is not None:
+                kw[name] = conv(pq(v), flt)
+        st = aioftp.ThrottleStreamIO(FakeReader(), FakeWriter(), throttles=dicts[ac["dict"]], **kw)
         streams.append(st)
     return objs, dicts, streams
+
+
+def eff_timeout(ac):
+    """StreamIO.__init__: <x>_timeout = <x>_timeout or timeout, for the direction of the actor; the
+    generator uses None or positive values only (what 0 means is C16's subject)"""
+    tmo = ac.get("tmo") or (None, None, None)
+    own = tmo[2] if ac["op"] == "write" else tmo[1]
+    return own if own is not None else tmo[0]
 
 
 def rebuild_dicts(case, objs, dicts):
@@ -321,25 +413,49 @@ async def actor_main(a, ac, script, stream, rec, objs, flt):
         elif kind == "io":
             dur, n = conv(pq(item[1]), flt), item[2]
             rec.begin_op(a)
-            if ac["mode"] == "A":
-                if ac["op"] == "write":
-                    stream.writer.next = (dur, n)
-                    await stream.write(b"y" * n)
+            fake = stream.writer if ac["op"] == "write" else stream.reader
+            before = fake.completed
+            nstart = sum(1 for e in rec.events if e["k"] == "start" and e["a"] == a)
+            # an exception raised by the implementation is an OBSERVATION (event "raise"), never the end
+            # of the run: the actor goes on with its script
+            try:
+                if ac["mode"] == "A":
+                    if ac["op"] == "write":
+                        stream.writer.next = (dur, n)
+                        await stream.write(b"y" * n)
+                        got = n
+                    else:
+                        stream.reader.next = (dur, n)
+                        data = await (stream.readline() if ac["op"] == "readline" else stream.read(max(n, 1)))
+                        got = len(data)
+                else:  # mode B: only the awaiting shell is replicated
+                    extra = conv(pq(item[3]), flt)
+                    await stream.wait(name)
+                    if extra:
+                        await vsleep(extra)
+                    start = vc.now
+                    rec.on_start(a, start)
+                    fake.next = (dur, n)
+                    await (fake.drain() if ac["op"] == "write" else fake.read())
+                    stream.append(name, b"z" * n, start)
                     got = n
-                else:
-                    stream.reader.next = (dur, n)
-                    data = await (stream.readline() if ac["op"] == "readline" else stream.read(max(n, 1)))
-                    got = len(data)
-            else:  # mode B: only the awaiting shell is replicated
-                extra = conv(pq(item[3]), flt)
-                await stream.wait(name)
-                if extra:
-                    await vsleep(extra)
-                start = vc.now
-                rec.on_start(a, start)
-                await vsleep(dur)
-                stream.append(name, b"z" * n, start)
-                got = n
+            except Exception as e:  # noqa: BLE001 - every exception of the code under test is recorded
+                started = [e2 for e2 in rec.events if e2["k"] == "start" and e2["a"] == a][nstart:]
+                moved = n if fake.completed > before else 0
+                tmo = getattr(stream, name + "_timeout", None)
+                expected = (
+                    ac["mode"] == "A" and isinstance(e, asyncio.TimeoutError) and tmo is not None and bool(started)
+                    and fake.completed == before and dur >= tmo and vc.now == started[0]["t"] + tmo
+                )
+                rec.on_raise(a, vc.now, type(e).__name__, moved, bool(expected))
+                rec.ops.append({"a": a, "tmo": tmo, "start": started[0]["t"] if started else None, "dur": dur,
+                                "ok": False, "end": vc.now, "exc": type(e).__name__, "mode": ac["mode"]})
+                continue
+            if ac["mode"] == "A":
+                started = [e2 for e2 in rec.events if e2["k"] == "start" and e2["a"] == a][nstart:]
+                rec.ops.append({"a": a, "tmo": getattr(stream, name + "_timeout", None),
+                                "start": started[0]["t"] if started else None, "dur": dur, "ok": True,
+                                "end": vc.now, "exc": None, "mode": "A"})
             rec.on_done(a, vc.now, got)
 
 
@@ -375,7 +491,8 @@ def run_impl(case, flt=False):
 
                 loop.run_until_complete(main())
             finally:
-                loop.close()
+                loop.shutdown()
+    run_impl.last_ops = rec.ops
     return rec.events, objs
 
 
@@ -396,6 +513,8 @@ def model_input(case, events):
             evs.append([2, e["a"], qsx(e["t"]), e["n"]])
         elif e["k"] == "setlimit":
             evs.append([3, e["id"], oqsx(e["v"])])
+        elif e["k"] == "raise":
+            evs.append([5, e["a"], qsx(e["t"])])  # Abort: the operation ended without append()
         else:
             evs.append([4])
     return [store, actors, qsx(pq(case["clock0"])), evs]
@@ -420,6 +539,12 @@ def compare(ctx, stream, case, events, log):
         ctx.disagree(stream, {"case": case, "at": len(log) - 1}, "model refused event / log length %d" % len(log), "%d events" % len(events))
         return False
     for i, (e, m) in enumerate(zip(events, log)):
+        if e["k"] == "raise" and not e.get("expected"):
+            # model says X, implementation raised E: recorded, and the comparison of this trace ends here
+            ctx.disagree(stream, {"case": case, "at": i, "event": _ev_json(e)},
+                         "model: the operation completes (Done) unless the timed socket I/O itself outlasts the timeout",
+                         "implementation raised " + e["exc"])
+            return False
         if m[0] != 1:
             ctx.disagree(stream, {"case": case, "at": i}, "model refuses event", _ev_json(e))
             return False
@@ -471,10 +596,12 @@ def oracle(ctx, case, events, ids, report=True, tag="trace"):
     def pos(k):
         return L[k] is not None and L[k] > 0
 
+    nraised = sum(1 for e in events if e["k"] == "raise" and not e.get("expected"))
+
     def viol(key, what, detail):
         out.append((key, what, detail))
         if report:
-            ctx.violation(what, {"key": key, "case": case, "stream": tag, "detail": detail})
+            ctx.violation(what, {"key": key, "case": case, "stream": tag, "detail": detail, "raised": nraised})
 
     def new_epoch(k, newlimit):
         L[k] = newlimit
@@ -496,6 +623,16 @@ def oracle(ctx, case, events, ids, report=True, tag="trace"):
                 new_epoch(k, L[k])
             continue
         a, t = e["a"], F(e["t"])
+        if kind == "raise":
+            # the operation ended with an exception: its actor is idle again; bytes of a socket I/O that had
+            # completed before the exception HAVE moved (the throttle may not have accounted them)
+            status[a] = "idle"
+            if e.get("n"):
+                for k in ids[a]:
+                    if pos(k):
+                        T[k] += e["n"]
+                        last[a][k] = e["n"]
+            continue
         if kind == "eval":
             w = F(e.get("wake", e["t"]))
             status[a] = "evaluated"
@@ -583,6 +720,19 @@ def gen_limit(rng, dyadic):
     return rng.choice(DY_LIMS if dyadic else LIMS)
 
 
+TMO = ["1/4", "1/2", "1", "2", "3", "5", "10", "100"]
+DY_TMO = ["1/4", "1/2", "1", "2", "4", "8", "16", "128"]
+
+
+def gen_timeout(rng, pos_lims, dyadic):
+    if pos_lims and rng.random() < 0.6:
+        need = F(rng.choice([b for b in BLK if b > 0])) / rng.choice(pos_lims)  # the sleep one block is worth
+        t = need * F(rng.choice(["1/4", "1/2", "1", "1", "2", "4"])) + rng.choice([-1, 0, 0, 1]) * F(1, 4)
+        if t > 0 and t.denominator <= 5040 and t <= 4000:
+            return str(t)
+    return rng.choice(DY_TMO if dyadic else TMO)
+
+
 def gen_gap(rng, rrs, dyadic):
     x = rng.random()
     if x < 0.25:
@@ -646,6 +796,14 @@ def gen_case(rng, dyadic=False, server_like=None):
         actors[1]["op"] = "write" if actors[0]["op"] == "write" else rng.choice(["read", "readline"])
         if actors[1]["mode"] == "B" and actors[1]["op"] == "readline":
             actors[1]["op"] = "read"
+    # read/write timeouts of the streams (StreamIO timeout / read_timeout / write_timeout): None or positive,
+    # below / around / above the sleep some block needs under some limit of the case, or from a fixed pool
+    pos_lims = [F(l) for l, _ in store if l is not None and F(l) > 0]
+    for ac in actors:
+        if rng.random() < 0.45:
+            ac["tmo"] = [gen_timeout(rng, pos_lims, dyadic) if rng.random() < p else None for p in (0.5, 0.5, 0.5)]
+            if all(v is None for v in ac["tmo"]):
+                ac["tmo"][rng.randrange(3)] = gen_timeout(rng, pos_lims, dyadic)
     rrs = [r for _, r in store if F(r) >= 0] or ["1"]
     nphase = rng.choice([1, 1, 1, 2, 3])
     phases = []
@@ -683,6 +841,13 @@ def gen_case(rng, dyadic=False, server_like=None):
                 else:
                     n = rng.choice(BLK)
                     dur = rng.choice(DY_DUR if dyadic else DUR)
+                    tmo = eff_timeout(actors[a])
+                    if tmo is not None and actors[a]["mode"] == "A":
+                        # the socket I/O itself mostly stays below the timeout (else the operation times out,
+                        # which is also generated); never exactly on it (a race inside asyncio)
+                        fits = [d for d in (DY_DUR if dyadic else DUR) if F(d) < F(tmo)] or ["0"]
+                        if F(dur) == F(tmo) or (F(dur) > F(tmo) and rng.random() < 0.75):
+                            dur = rng.choice(fits)
                     if actors[a]["op"] == "readline" and n == 0 and rng.random() < 0.5:
                         n = 1
                     item = ["io", dur, n]
@@ -710,12 +875,20 @@ def wired(case):
 def stream_traces(ctx, n, dyadic, flt, tag, xcheck):
     rng = ctx.rng
     batch = []
+    ops_all = []
     for _ in range(n):
         case = gen_case(rng, dyadic=dyadic)
         ctx.traces_impl += 1
-        events, objs = run_impl(case, flt=flt)
+        try:
+            events, objs = run_impl(case, flt=flt)
+        except Exception as e:  # noqa: BLE001 - not even the harness' own failure may end the search
+            ctx.disagree(tag, {"case": case}, "model: every generated case is a trace", "running the case raised %r" % (e,))
+            ctx.count(f"{tag}_case_raised")
+            continue
         batch.append((case, events))
+        ops_all += [(case, o) for o in run_impl.last_ops]
     logs = ctx.model([(1, model_input(c, ev)) for c, ev in batch])
+    check_ops(ctx, tag, ops_all, xcheck)
     nres = 0
     for (case, events), log in zip(batch, logs):
         key = json.dumps(case, sort_keys=True)
@@ -739,12 +912,49 @@ def stream_traces(ctx, n, dyadic, flt, tag, xcheck):
             elif e["k"] in ("setlimit", "cloneall"):
                 prev = {}
         ctx.count(f"{tag}_resets", resets)
+        ctx.count(f"{tag}_streams_with_timeout", sum(1 for ac in case["actors"] if ac.get("tmo")))
+        ctx.count(f"{tag}_ops_timed_out", sum(1 for e in events if e["k"] == "raise" and e.get("expected")))
+        ctx.count(f"{tag}_ops_raised_unexpectedly", sum(1 for e in events if e["k"] == "raise" and not e.get("expected")))
+        ctx.count(f"{tag}_sleeps_longer_than_stream_timeout", _sleeps_over_timeout(case, events))
         if agree and len(xcheck) < 25 and len(events) <= 40:
             xcheck.append((1, model_input(case, events), log))
         if len(ctx.samples) < 3:
             ctx.sample({"stream": tag, "actors": case["actors"], "dicts": case["dicts"], "store": case["store"],
                         "events": [_ev_json(e) for e in events[:12]]})
     ctx.count(f"{tag}_literal_bound_exceeded_within_slack", nres)
+
+
+def _sleeps_over_timeout(case, events):
+    """non-triviality of the timeout dimension: throttle waits that outlast the stream's own timeout"""
+    k = 0
+    for e in events:
+        if e["k"] == "eval":
+            tmo = eff_timeout(case["actors"][e["a"]])
+            if tmo is not None and F(e.get("wake", e["t"])) - F(e["t"]) > F(tmo):
+                k += 1
+    return k
+
+
+def check_ops(ctx, tag, ops_all, xcheck):
+    """every operation on a stream vs timed_end: with effective timeout T the socket I/O of duration d entered
+    at `start` completes at start + d when d < T (or T is None) and raises asyncio.TimeoutError at start + T
+    otherwise; anything else the implementation raised is reported (model says X, implementation raised E)"""
+    jobs, keep = [], []
+    for case, o in ops_all:
+        if o["start"] is None or o["mode"] != "A":
+            continue
+        jobs.append((6, [oqsx(o["tmo"]), qsx(o["start"]), qsx(o["dur"])]))
+        keep.append((case, o))
+    res = ctx.model(jobs) if jobs else []
+    for (case, o), job, m in zip(keep, jobs, res):
+        ctx.case((tag, "op", str(o["tmo"]), str(o["start"]), str(o["dur"])), nontrivial=o["tmo"] is not None)
+        impl = [1 if o["ok"] else 0, qsx(o["end"])]
+        if [m[0], list(m[1])] != impl or (not o["ok"] and o["exc"] != "TimeoutError"):
+            ctx.disagree(tag + "_timed_op", {"case": case, "op": {k: (str(v) if isinstance(v, (F, float)) else v) for k, v in o.items()}},
+                         {"completed": m[0], "end": list(m[1])}, {"completed": impl[0], "end": impl[1], "raised": o["exc"]})
+        elif o["tmo"] is not None and len(xcheck) < 40 and sum(1 for x in xcheck if x[0] == 6) < 8:
+            xcheck.append(job + (m,))
+    ctx.count(f"{tag}_timed_ops", len(keep))
 
 
 def stream_units(ctx, n, xcheck):
@@ -793,44 +1003,68 @@ def stream_units(ctx, n, xcheck):
             def state(t):
                 return [oqsx(t._limit), qsx(t.reset_rate), oqsx(t._start), int(t._sum)]
 
-            # wake: run the real wait() on a loop whose sleep is the recorder
-            vc = VClock(pq(now))
-            loop = VLoop(vc)
-            try:
-                t = mk()
-                loop.run_until_complete(t.wait())
-                woke = vc.now
-            finally:
-                loop.close()
             m_wake, m_app, m_clone, m_set = res[4 * i : 4 * i + 4]
-            if list(m_wake) != qsx(woke):
-                ctx.disagree("unit_wake", [lim, rr, st, sm, now], list(m_wake), qsx(woke))
-            t = mk()
-            t.append(b"a" * nb, pq(now))
-            if canon_model_store([m_app])[0] != state(t):
-                ctx.disagree("unit_append", [lim, rr, st, sm, now, nb], m_app, state(t))
-            c = mk().clone()
-            if canon_model_store([m_clone])[0] != state(c):
-                ctx.disagree("unit_clone", [lim, rr, st, sm], m_clone, state(c))
-            if c._start is not None or c._sum != 0 or c._limit != pq(lim):
+
+            def observed(f):
+                """the state the call leaves behind, or the exception it raised (an observation like any other)"""
+                try:
+                    return f()
+                except Exception as e:  # noqa: BLE001
+                    ctx.count("unit_calls_raised")
+                    return "raised " + type(e).__name__
+
+            # wake: run the real wait() on a loop whose sleep is the recorder
+            def do_wait():
+                vc = VClock(pq(now))
+                loop = VLoop(vc)
+                try:
+                    loop.run_until_complete(mk().wait())
+                    return vc.now
+                finally:
+                    loop.shutdown()
+
+            woke = observed(do_wait)
+            if isinstance(woke, str) or list(m_wake) != qsx(woke):
+                ctx.disagree("unit_wake", [lim, rr, st, sm, now], list(m_wake), woke if isinstance(woke, str) else qsx(woke))
+
+            def do_append():
+                t = mk()
+                t.append(b"a" * nb, pq(now))
+                return state(t)
+
+            got = observed(do_append)
+            if canon_model_store([m_app])[0] != got:
+                ctx.disagree("unit_append", [lim, rr, st, sm, now, nb], m_app, got)
+            c = observed(lambda: mk().clone())
+            if isinstance(c, str) or canon_model_store([m_clone])[0] != state(c):
+                ctx.disagree("unit_clone", [lim, rr, st, sm], m_clone, c if isinstance(c, str) else state(c))
+            if not isinstance(c, str) and (c._start is not None or c._sum != 0 or c._limit != pq(lim)):
                 ctx.violation("clone() keeps memory or changes the limit", {"key": "c15-clone-memory", "case": [lim, rr, st, sm]})
-            t = mk()
-            t.limit = pq(newlim)
-            if canon_model_store([m_set])[0] != state(t):
-                ctx.disagree("unit_set_limit", [lim, rr, st, sm, newlim], m_set, state(t))
+
+            def do_set():
+                t = mk()
+                t.limit = pq(newlim)
+                return state(t)
+
+            got = observed(do_set)
+            if canon_model_store([m_set])[0] != got:
+                ctx.disagree("unit_set_limit", [lim, rr, st, sm, newlim], m_set, got)
             # off is free, on ANY memory
-            if (pq(lim) is None or pq(lim) <= 0) and woke != pq(now):
+            if (pq(lim) is None or pq(lim) <= 0) and not isinstance(woke, str) and woke != pq(now):
                 ctx.violation("wait() sleeps although the limit is off", {"key": "c15-delay-when-off", "case": [lim, rr, st, sm, now]})
             if i < 10:
                 th = [oqsx(pq(lim)), qsx(pq(rr)), oqsx(pq(st)), sm]
                 xcheck.append((2, [th, qsx(pq(now))], m_wake))
                 xcheck.append((3, [th, nb, qsx(pq(now))], m_app))
     # StreamThrottle.clone / from_limits
-    stt = aioftp.StreamThrottle.from_limits(F(3), None)
-    stt.read.append(b"abc", F(1))
-    cl = stt.clone()
-    if cl.read is stt.read or cl.write is stt.write or cl.read._start is not None or cl.read._limit != F(3) or cl.write._limit is not None:
-        ctx.violation("StreamThrottle.clone() does not give fresh memoryless throttles", {"key": "c15-clone-memory", "case": "StreamThrottle"})
+    try:
+        stt = aioftp.StreamThrottle.from_limits(F(3), None)
+        stt.read.append(b"abc", F(1))
+        cl = stt.clone()
+        if cl.read is stt.read or cl.write is stt.write or cl.read._start is not None or cl.read._limit != F(3) or cl.write._limit is not None:
+            ctx.violation("StreamThrottle.clone() does not give fresh memoryless throttles", {"key": "c15-clone-memory", "case": "StreamThrottle"})
+    except Exception as e:  # noqa: BLE001
+        ctx.disagree("unit_stream_throttle_clone", "from_limits(3, None); append; clone", "model: a fresh pair", "raised %r" % (e,))
     ctx.count("unit_cases", len(cases))
 
 
@@ -1131,6 +1365,541 @@ def stream_e2e(ctx):
 
 
 # ---------------------------------------------------------------------------------------------
+# end-to-end in VIRTUAL time (harness/simnet.py): the real Server and Client, in-process, on an in-memory
+# network.  Dimensions: the five limit levels x direction x 1..n sessions x block / file sizes x TIMEOUTS
+# configured on the limited side (server socket_timeout / idle_timeout, client socket_timeout: none, below,
+# around, above the sleep one block is worth) x multi-step login HISTORIES (login, quit, re-login of
+# several sessions of one or two users before the concurrent transfers).
+#
+# Observation (below aioftp, at the asyncio layer): every transport.write (instant, sender side, bytes) and
+# every StreamReader.read/readline return (instant, reader side, bytes), tagged with the session that opened
+# the connection.  Oracle (arithmetic, on those observations only): for every configured limit L and every
+# group of streams that must share it, at every I/O the bytes moved before it obey
+#     B <= L * (t - t0) + (resets + 1)/2 + one block per participating stream
+# (t0 = first byte of the group's sessions in that direction), and -- single-limit scenarios -- the whole
+# scenario takes no longer than (bytes in the limited direction)/L (throttling adds no other delay: with a
+# limit only in the opposite direction a transfer costs only the control traffic's share).
+# Model prediction for every generated scenario: it completes (the throttle wait is outside every timed
+# region; the timed socket I/O itself is instantaneous on this network); an exception is an observation.
+
+SESSION = contextvars.ContextVar("c15_session", default=None)
+LEVELS = ("client", "server", "server_per_connection", "user", "user_per_connection")
+RESET_RATE = 10  # Throttle's default reset_rate, the only one the server / client ever construct
+
+
+class SimObs:
+    def __init__(self, net):
+        self.net = net
+        self.log = []
+        self.user_of = {}  # session -> user it is logged in as right now (None before login / after quit)
+        self.epoch = {}  # session -> number of logins so far
+        net.on_connect = self.on_connect
+
+    def on_connect(self, ct, st):
+        sid = SESSION.get()
+        for tr in (ct, st):
+            tr.session = sid
+            tr.out.segmenter = self._segmenter(tr)
+
+    def _segmenter(self, tr):
+        def seg(data):
+            self.entry(tr, "write", len(data))
+            return [data]
+
+        return seg
+
+    def entry(self, tr, dirn, n):
+        if n <= 0:
+            return
+        sid = getattr(tr, "session", None)
+        self.log.append({"t": self.net.loop.time(), "s": sid, "side": tr.side, "dir": dirn, "stream": tr.label,
+                         "n": n, "user": self.user_of.get(sid), "ep": self.epoch.get(sid, 0)})
+
+
+class ReaderSpy:
+    """asyncio.StreamReader.read / readline report what they return (class attributes, restored on exit)"""
+
+    def __init__(self, obs):
+        self.obs = obs
+
+    def __enter__(self):
+        from .. import simnet
+
+        R = asyncio.StreamReader
+        self.saved = (R.read, R.readline)
+        o_read, o_readline = self.saved
+        obs = self.obs
+
+        async def read(rd, n=-1):
+            data = await o_read(rd, n)
+            tr = getattr(rd, "_transport", None)
+            if isinstance(tr, simnet.MemTransport):
+                obs.entry(tr, "read", len(data))
+            return data
+
+        async def readline(rd):
+            data = await o_readline(rd)
+            tr = getattr(rd, "_transport", None)
+            if isinstance(tr, simnet.MemTransport):
+                obs.entry(tr, "read", len(data))
+            return data
+
+        R.read, R.readline = read, readline
+        return self
+
+    def __exit__(self, *a):
+        asyncio.StreamReader.read, asyncio.StreamReader.readline = self.saved
+
+
+def _limit_kwargs(sc):
+    server_kw, user_kw, client_kw = {}, {}, {}
+    for level, dirn, L in sc["limits"]:
+        if level == "server":
+            server_kw[f"{dirn}_speed_limit"] = L
+        elif level == "server_per_connection":
+            server_kw[f"{dirn}_speed_limit_per_connection"] = L
+        elif level == "user":
+            user_kw[f"{dirn}_speed_limit"] = L
+        elif level == "user_per_connection":
+            user_kw[f"{dirn}_speed_limit_per_connection"] = L
+        elif level == "client":
+            client_kw[f"{dirn}_speed_limit"] = L
+    return server_kw, user_kw, client_kw
+
+
+def run_sim(sc, wall_timeout=30):
+    """run one scenario on the real Server / Client in virtual time; returns {"log", "moved", "raised",
+    "identity", "t_end"}"""
+    import pathlib
+
+    from .. import simnet
+
+    out = {"log": [], "moved": {}, "raised": [], "identity": None, "t_end": None, "sessions_of_user": {}}
+
+    async def main(net):
+        obs = SimObs(net)
+        server_kw, user_kw, client_kw = _limit_kwargs(sc)
+        size = sc["block"] * sc["nblocks"]
+        payload = b"-" * size
+        seed_io = aioftp.MemoryPathIO()
+        sids = sorted({st[1] for st in sc["history"]})
+        if sc["direction"] == "download":
+            for sid in sids:
+                async with seed_io.open(pathlib.PurePosixPath(f"/f{sid}"), "wb") as f:
+                    await f.write(payload)
+        users = [aioftp.User(f"u{u}", "pw", base_path="/", **user_kw) for u in range(sc["users"])]
+        st = sc.get("server_timeouts") or {}
+        server = aioftp.Server(users, path_io_factory=aioftp.MemoryPathIO, block_size=sc["block"],
+                               socket_timeout=st.get("socket"), idle_timeout=st.get("idle"), **server_kw)
+        server.path_io_factory.state = seed_io.state  # PathIONursery: the file system every connection shares
+        clients = {}
+        with ReaderSpy(obs):
+            try:
+                await server.start("127.0.0.1", 0)
+                port = server.server_port
+                ct = (sc.get("client_timeouts") or {}).get("socket")
+                # ---- the login history, one step after the other
+                for step in sc["history"]:
+                    kind, sid = step[0], step[1]
+                    SESSION.set(sid)
+                    try:
+                        if kind == "login":
+                            c = aioftp.Client(path_io_factory=aioftp.MemoryPathIO, socket_timeout=ct, **client_kw)
+                            clients[sid] = c
+                            await c.connect("127.0.0.1", port)
+                            await c.login(f"u{step[2]}", "pw")
+                            obs.user_of[sid] = step[2]
+                            obs.epoch[sid] = obs.epoch.get(sid, 0) + 1
+                        elif kind == "relogin":
+                            obs.user_of[sid] = None
+                            await clients[sid].login(f"u{step[2]}", "pw")
+                            obs.user_of[sid] = step[2]
+                            obs.epoch[sid] = obs.epoch.get(sid, 0) + 1
+                        elif kind == "quit":
+                            await clients[sid].quit()
+                            obs.user_of[sid] = None
+                            del clients[sid]
+                        out["sessions_of_user"].setdefault(obs.user_of.get(sid), set()).add(sid)
+                    except Exception as e:  # noqa: BLE001 - an observation, the scenario goes on
+                        out["raised"].append(["history", sid, type(e).__name__, str(e)[:200]])
+                    await net.settle()
+                # ---- which per-user object does every live session hold (white box, for the identity oracle)
+                ident = {}
+                for cn in list(server.connections.values()):
+                    for sid, c in clients.items():
+                        try:
+                            mine = c.stream.writer.transport.get_extra_info("sockname")[1] == cn.client_port
+                        except Exception:  # noqa: BLE001
+                            mine = False
+                        if mine:
+                            th = cn.command_connection.throttles
+                            ident[sid] = {"user": obs.user_of.get(sid),
+                                          "user_global": id(th.get("user_global")),
+                                          "user_per_connection": id(th.get("user_per_connection")),
+                                          "server_global": id(th.get("server_global")),
+                                          "server_per_connection": id(th.get("server_per_connection"))}
+                out["identity"] = ident
+                out["server_throttle"] = id(server.throttle)
+
+                # ---- all live sessions act concurrently
+                async def act(sid, c):
+                    SESSION.set(sid)
+                    n = 0
+                    try:
+                        if sc["direction"] == "download":
+                            async with c.download_stream(f"f{sid}") as stream:
+                                async for block in stream.iter_by_block(sc["block"]):
+                                    n += len(block)
+                        elif sc["direction"] == "upload":
+                            async with c.upload_stream(f"up{sid}") as stream:
+                                for off in range(0, size, sc["block"]):
+                                    await stream.write(payload[off : off + sc["block"]])
+                                    n += min(sc["block"], size - off)
+                        else:  # a burst of commands on the control channel
+                            for i in range(sc["ncmd"]):
+                                await c.command("PWD", "257")
+                                n += 1
+                    except Exception as e:  # noqa: BLE001
+                        out["raised"].append([sc["direction"], sid, type(e).__name__, str(e)[:200]])
+                    out["moved"][sid] = n
+
+                out["t_phase"] = net.loop.time()
+                if clients:
+                    await asyncio.gather(*[act(sid, c) for sid, c in sorted(clients.items())])
+                out["t_end"] = net.loop.time()
+                out["n_phase_end"] = len(obs.log)  # what follows is the tear-down (sessions quit one after the other)
+            finally:
+                for sid, c in sorted(clients.items()):
+                    SESSION.set(sid)
+                    try:
+                        await asyncio.wait_for(c.quit(), 1000)
+                    except Exception:  # noqa: BLE001
+                        try:
+                            c.close()
+                        except Exception:  # noqa: BLE001
+                            pass
+                await net.settle()
+                try:
+                    await server.close()
+                except Exception as e:  # noqa: BLE001
+                    out["raised"].append(["close", None, type(e).__name__, str(e)[:200]])
+                out["log"] = obs.log
+        return out
+
+    try:
+        return simnet.run(main, wall_timeout=wall_timeout)
+    except BaseException as e:  # noqa: BLE001 - even a wedged scenario is an observation
+        if isinstance(e, KeyboardInterrupt):
+            raise
+        out["raised"].append(["run", None, type(e).__name__, str(e)[:200]])
+        return out
+
+
+def sim_expected(sc):
+    """what a completed scenario moves per live session"""
+    live = {}
+    for st in sc["history"]:
+        if st[0] == "quit":
+            live.pop(st[1], None)
+        else:
+            live[st[1]] = st[2]
+    per = sc["ncmd"] if sc["direction"] == "commands" else sc["block"] * sc["nblocks"]
+    return live, {sid: per for sid in live}
+
+
+def sim_groups(sc, out):
+    """(name, L, direction, side, member(entry), counted(entry)) for every limit of the scenario and every set of
+    streams that must share it.  `member` delimits the sessions of the group (window origin, total time);
+    `counted` is the subset of their I/O that is certainly subject to the limit (after the login that bound it)"""
+    ever = {}  # user -> sessions that were ever logged in as it
+    final_ep = {}
+    ep = {}
+    for st in sc["history"]:
+        if st[0] in ("login", "relogin"):
+            ever.setdefault(st[2], set()).add(st[1])
+            ep[st[1]] = ep.get(st[1], 0) + 1
+            final_ep[st[1]] = ep[st[1]]
+    sids = sorted({st[1] for st in sc["history"]})
+    groups = []
+    for level, dirn, L in sc["limits"]:
+        if level == "client":
+            for sid in sids:
+                m = (lambda e, sid=sid: e["side"] == "client" and e["s"] == sid)
+                groups.append((f"client[{sid}]", L, dirn, m, m))
+        elif level == "server":
+            m = (lambda e: e["side"] == "server")
+            groups.append(("server", L, dirn, m, m))
+        elif level == "server_per_connection":
+            for sid in sids:
+                m = (lambda e, sid=sid: e["side"] == "server" and e["s"] == sid)
+                groups.append((f"server_per_connection[{sid}]", L, dirn, m, m))
+        elif level == "user":
+            for u, ss in sorted(ever.items()):
+                m = (lambda e, ss=ss: e["side"] == "server" and e["s"] in ss)
+                c = (lambda e, ss=ss, u=u: e["side"] == "server" and e["s"] in ss and e["user"] == u)
+                groups.append((f"user[u{u}]", L, dirn, m, c))
+        elif level == "user_per_connection":
+            for sid in sids:
+                m = (lambda e, sid=sid: e["side"] == "server" and e["s"] == sid)
+                c = (lambda e, sid=sid: e["side"] == "server" and e["s"] == sid and e["user"] is not None
+                     and e["ep"] == final_ep.get(sid))
+                groups.append((f"user_per_connection[{sid}]", L, dirn, m, c))
+    return groups
+
+
+def sim_oracle(sc, out):
+    """the property's cumulative bound (and the no-other-delay direction) on the observation log; returns a list of
+    (key, what, detail)"""
+    log = out["log"]
+    viol = []
+    EPS = 1e-6
+    for name, L, dirn, member, counted in sim_groups(sc, out):
+        ents = [e for e in log if e["dir"] == dirn and member(e)]
+        if not ents:
+            continue
+        t0 = ents[0]["t"]
+        B = 0
+        latest = {}
+        for e in ents:
+            if not counted(e):
+                continue
+            dt = e["t"] - t0
+            allowance = L * dt + (dt / RESET_RATE + 1) / 2 + sum(latest.values())
+            if B > allowance + EPS * max(1, L):
+                viol.append(("c15-sim-rate-exceeded",
+                             "end-to-end: the bytes moved under a limit run ahead of limit*(t - t0) by more than the blocks in flight",
+                             {"group": name, "limit": L, "direction": dirn, "t": e["t"], "t0": t0, "bytes_before": B,
+                              "limit_times_elapsed": L * dt, "blocks_in_flight_allowance": sum(latest.values()),
+                              "streams": sorted(latest), "observed_rate": (B / dt if dt > 0 else None)}))
+                break
+            B += e["n"]
+            latest[e["stream"]] = e["n"]
+    # no delay beyond what the (single) limit requires
+    # (not after a re-login: a session then spent part of its life under another user's limit)
+    if len(sc["limits"]) == 1 and not out["raised"] and out.get("t_end") is not None and not any(
+        st[0] == "relogin" for st in sc["history"]
+    ):
+        for name, L, dirn, member, counted in sim_groups(sc, out):
+            side = "client" if name.startswith("client") else "server"
+            sess = {e["s"] for e in log if member(e)}
+            mine = [e for e in log[: out.get("n_phase_end", len(log))] if e["s"] in sess]
+            if not mine:
+                continue
+            # the login history runs one step after the other (a session idles while the others log in); from the
+            # start of the concurrent phase on every session acts as fast as it is allowed to, so the last I/O
+            # happens no later than t_first + (all bytes in the limited direction)/L
+            t_first, t_last = mine[0]["t"], max(e["t"] for e in mine)
+            total = sum(e["n"] for e in mine if e["dir"] == dirn and e["side"] == side)
+            dt = t_last - t_first
+            if t_last > out.get("t_phase", 0) + EPS and dt > total / L + (dt / RESET_RATE + 2) / (2 * L) + EPS:
+                viol.append(("c15-sim-excess-delay",
+                             "end-to-end: a scenario took longer than (bytes in the limited direction)/limit: throttling added delay the bound does not require",
+                             {"group": name, "limit": L, "direction": dirn, "seconds": dt, "bytes_limited_direction": total,
+                              "required_at_most": total / L, "concurrent_phase_started": out.get("t_phase")}))
+    return viol
+
+
+def sim_identity_oracle(sc, out):
+    """object identity of the shared limits across the sessions that are live after the history: the server-wide
+    object is one, the per-user object is one per USER (same user <=> same object), per-connection objects are
+    pairwise distinct"""
+    ident = out.get("identity") or {}
+    viol = []
+    sids = sorted(ident)
+    for i, a in enumerate(sids):
+        for b in sids[i + 1 :]:
+            x, y = ident[a], ident[b]
+            if x["user"] is None or y["user"] is None:
+                continue
+            same_user = x["user"] == y["user"]
+            if same_user != (x["user_global"] == y["user_global"]):
+                viol.append(("c15-history-per-user-identity",
+                             "after this login history two live sessions of the same user hold different per-user limit objects "
+                             "(the per-user limit no longer bounds their sum)" if same_user else
+                             "after this login history two live sessions of different users hold the same per-user limit object",
+                             {"sessions": [a, b], "users": [x["user"], y["user"]]}))
+            if x["user_per_connection"] == y["user_per_connection"] or x["server_per_connection"] == y["server_per_connection"]:
+                viol.append(("c15-history-per-connection-identity", "two live sessions share a per-connection limit object",
+                             {"sessions": [a, b]}))
+            if x["server_global"] != y["server_global"] or x["server_global"] != out.get("server_throttle"):
+                viol.append(("c15-history-server-identity", "live sessions do not share the server-wide limit object",
+                             {"sessions": [a, b]}))
+    return viol
+
+
+def sim_check(ctx, sc, tag):
+    """run a scenario, compare with the prediction (it completes), evaluate the oracles; returns the oracle hits"""
+    out = run_sim(sc)
+    ctx.traces_impl += 1
+    live, expect = sim_expected(sc)
+    ctx.case((tag, json.dumps(sc, sort_keys=True)), nontrivial=bool(out["log"]))
+    ctx.count(f"{tag}_scenarios")
+    ctx.count(f"{tag}_io_observed", len(out["log"]))
+    if out["raised"] or out["moved"] != expect:
+        ctx.count(f"{tag}_not_completed")
+        ctx.disagree(tag, {"scenario": sc},
+                     {"model": "the scenario completes: throttle waits are outside every timed region", "moved": expect},
+                     {"raised": out["raised"], "moved": out["moved"]})
+    hits = sim_oracle(sc, out) + sim_identity_oracle(sc, out)
+    for key, what, detail in hits:
+        ctx.violation(what, {"key": key, "stream": tag, "scenario": sc, "detail": detail})
+    return out, hits
+
+
+def _tcfg(sleep, which):
+    """a timeout below / around / above the sleep one block is worth (all exact binary fractions)"""
+    return {"none": None, "below": sleep / 4, "around-": max(sleep - 0.125, sleep / 2), "around+": sleep + 0.125,
+            "above": 4 * sleep}[which]
+
+
+def limited_dir(level, direction):
+    """the direction, seen from the limited side, in which a transfer moves its payload"""
+    if level == "client":
+        return "read" if direction == "download" else "write"
+    return "write" if direction == "download" else "read"
+
+
+def gen_sim_scenarios(rng, thorough):
+    scs = []
+    hist1 = lambda n, users=1: [["login", i, i % users] for i in range(n)]  # noqa: E731
+    # (A) every level x transfer direction x 1..2 sessions x timeout on the limited side
+    for level in LEVELS:
+        for direction in ("download", "upload"):
+            for nconn in (1, 2):
+                for which in ("none", "below", "around-", "around+", "above"):
+                    L = rng.choice([1024, 4096])
+                    block = rng.choice([1024, 4096, 8192])
+                    T = _tcfg(block / L, which)
+                    sc = {"direction": direction, "block": block, "nblocks": rng.randint(3, 9), "ncmd": 0,
+                          "limits": [[level, limited_dir(level, direction), L]], "users": 1, "history": hist1(nconn),
+                          "server_timeouts": {"socket": T if level != "client" else None, "idle": None},
+                          "client_timeouts": {"socket": T if level == "client" else None}, "timeout_is": which}
+                    scs.append(sc)
+    # (B) only the opposite direction is limited: the payload must not be delayed at all
+    for level in LEVELS:
+        for direction in ("download", "upload"):
+            opp = "read" if limited_dir(level, direction) == "write" else "write"
+            scs.append({"direction": direction, "block": 4096, "nblocks": rng.randint(3, 9), "ncmd": 0,
+                        "limits": [[level, opp, rng.choice([512, 2048])]], "users": 1, "history": hist1(rng.choice([1, 2])),
+                        "server_timeouts": {"socket": rng.choice([None, 0.5]), "idle": None} if level != "client" else {},
+                        "client_timeouts": {"socket": rng.choice([None, 0.5])} if level == "client" else {},
+                        "timeout_is": "opposite"})
+    # (C) control channel only: a burst of commands under a tiny limit, idle_timeout (server reads) / socket_timeout
+    # (server writes, client) below / around / above the sleep one line is worth
+    for level in LEVELS:
+        for dirn in ("read", "write"):
+            for which in ("below", "around-", "around+", "above") if thorough else (rng.choice(["below", "around-"]), rng.choice(["around+", "above"])):
+                L = rng.choice([1, 2, 4])
+                T = _tcfg(8 / L, which)
+                st, ct = {"socket": None, "idle": None}, {"socket": None}
+                if level == "client":
+                    ct["socket"] = T
+                elif dirn == "read":
+                    st["idle"] = T
+                else:
+                    st["socket"] = T
+                # with an idle_timeout only one session: the steps of a history run one after the other, and a
+                # session that idles while another one logs in under a 1 B/s limit is rightly dropped (C16)
+                scs.append({"direction": "commands", "block": 1024, "nblocks": 0, "ncmd": rng.randint(4, 10),
+                            "limits": [[level, dirn, L]], "users": 1, "history": hist1(1 if st["idle"] else rng.choice([1, 2])),
+                            "server_timeouts": st, "client_timeouts": ct, "timeout_is": which})
+    # (D) two limits at once (the tightest governs: each bound holds), two users, mixed timeouts
+    for _ in range(40 if thorough else 12):
+        direction = rng.choice(["download", "upload"])
+        lv = rng.sample(LEVELS, 2)
+        L1, L2 = rng.sample([1024, 2048, 4096, 8192], 2)
+        block = rng.choice([1024, 4096])
+        # a timeout only when both limits sit on the server: with a client limit in play the faster side is
+        # stalled by its peer and its socket timeout rightly fires (C16), which is not this property's subject
+        T = None if "client" in lv else _tcfg(block / min(L1, L2), rng.choice(["none", "below", "around+", "above"]))
+        scs.append({"direction": direction, "block": block, "nblocks": rng.randint(3, 8), "ncmd": 0,
+                    "limits": [[lv[0], limited_dir(lv[0], direction), L1], [lv[1], limited_dir(lv[1], direction), L2]],
+                    "users": 2, "history": hist1(rng.choice([2, 3]), users=2),
+                    "server_timeouts": {"socket": T, "idle": None}, "client_timeouts": {"socket": None},
+                    "timeout_is": "mixed"})
+    return scs
+
+
+def gen_histories(maxlen, users=2, maxlive=3):
+    """all login histories up to maxlen steps over `users` users (first login is u0: symmetry), at most maxlive
+    live sessions: login of a new session, quit / re-login of the oldest or the newest live session"""
+    res = []
+
+    def rec(hist, live, nxt):
+        if hist:
+            res.append(list(hist))
+        if len(hist) == maxlen:
+            return
+        for u in range(users if hist else 1):
+            if len(live) < maxlive:
+                rec(hist + [["login", nxt, u]], live + [(nxt, u)], nxt + 1)
+        cand = []
+        if live:
+            cand.append(live[0])
+            if len(live) > 1:
+                cand.append(live[-1])
+        for sid, u in cand:
+            rec(hist + [["quit", sid]], [x for x in live if x[0] != sid], nxt)
+            for u2 in range(users):
+                if u2 != u:
+                    rec(hist + [["relogin", sid, u2]], [(s, (u2 if s == sid else uu)) for s, uu in live], nxt)
+
+    rec([], [], 0)
+    return res
+
+
+def stream_sim(ctx):
+    """(A)-(D): levels x directions x sessions x timeouts, in virtual time"""
+    thorough = ctx.tier == "thorough"
+    scs = gen_sim_scenarios(ctx.rng, thorough)
+    if thorough:
+        scs += gen_sim_scenarios(ctx.rng, False)
+    for sc in scs:
+        out, hits = sim_check(ctx, sc, "sim")
+        ctx.count("sim_timeout_" + str(sc.get("timeout_is")))
+        ctx.count("sim_level_" + "+".join(l[0] for l in sc["limits"]))
+    ctx.extra.setdefault("sim", {})["scenarios"] = len(scs)
+
+
+def stream_histories(ctx):
+    """(E) login histories of one or two users under a per-user limit: identity of the per-user object across the
+    live sessions after EVERY history up to a length (bounded exhaustive), and -- for the histories that end with
+    two or more live sessions of one user -- concurrent transfers against the shared bound"""
+    thorough = ctx.tier == "thorough"
+    rng = ctx.rng
+    hs = gen_histories(6 if thorough else 5)
+    ctx.count("history_enumerated", len(hs))
+    base = {"block": 4096, "ncmd": 0, "users": 2, "server_timeouts": {}, "client_timeouts": {}, "timeout_is": "none"}
+    xfer = []
+    for h in hs:
+        live, _ = sim_expected({"history": h, "direction": "download", "block": 1, "nblocks": 1, "ncmd": 0})
+        byuser = {}
+        for sid, u in live.items():
+            byuser.setdefault(u, []).append(sid)
+        shares = any(len(v) >= 2 for v in byuser.values())
+        churn = any(st[0] in ("quit", "relogin") for st in h)
+        if shares and churn:
+            xfer.append(h)
+            continue
+        # identity only: nothing is transferred (nblocks 0 -> the live sessions run an empty burst)
+        sc = dict(base, direction="commands", nblocks=0, limits=[["user", "write", 4096]], history=h)
+        sim_check(ctx, sc, "history")
+    ctx.count("history_with_shared_user_after_churn", len(xfer))
+    budget = len(xfer) if thorough else 120
+    if len(xfer) > budget:
+        # keep the shortest ones (every pattern of length <= 4 with churn is among them) + a random rest
+        xfer.sort(key=len)
+        head = [h for h in xfer if len(h) <= 4][:budget]
+        xfer = head + rng.sample([h for h in xfer if h not in head], max(0, budget - len(head)))
+    for h in xfer:
+        direction = rng.choice(["download", "upload"])
+        sc = dict(base, direction=direction, nblocks=rng.randint(6, 12),
+                  limits=[["user", limited_dir("user", direction), rng.choice([4096, 16384])]], history=h)
+        sim_check(ctx, sc, "history")
+        ctx.count("history_transfers")
+
+
+# ---------------------------------------------------------------------------------------------
 # the recorded finding: the witness of C15_literal_bound_refuted on the real classes
 
 WITNESS = {
@@ -1170,21 +1939,53 @@ def correspondence(ctx, budget=None):
         "every object; every wake time and the (limit, reset_rate, start, sum) of every object after every event compared "
         "with the model; (b) the same generator on dyadic inputs run with float clock and limits; (c) unit cases of round / "
         "wait / append / clone / limit setter on arbitrary states; (d) wiring facts vs object identities in a live loopback "
-        "session; thorough: (e) end-to-end loopback transfers. Oracle on the real trace: scheduled-within-rate at every start, "
-        "shared bound at every completion, no excess delay and no delay when off at every wait. A trace is non-trivial when "
+        "session; thorough: (e) end-to-end loopback transfers. Streams of (a)/(b) carry StreamIO timeout / read_timeout / "
+        "write_timeout (None or positive; below, around, above the sleep a block is worth; the socket I/O mostly shorter, "
+        "sometimes longer than the timeout -> asyncio.TimeoutError, model event Abort); every operation's outcome is compared "
+        "with timed_end; an exception of the implementation is an event of the trace (model says X, implementation raised E), "
+        "never the end of the run. (f) simnet, virtual time, real Server + Client: five limit levels x download/upload/command "
+        "burst x 1-2 sessions x socket_timeout / idle_timeout / client socket_timeout on the limited side (none, below, around, "
+        "above the sleep of one block or line) + opposite-direction limits + two limits at once; (g) all login histories up to 5 "
+        "(thorough 6) steps (login / quit / re-login of the oldest or newest of <= 3 sessions, 2 users) under a per-user limit: "
+        "identity of the per-user object across live sessions after each, concurrent transfers after those that end with a "
+        "shared user after churn. Oracle on the real trace: scheduled-within-rate at every start, "
+        "shared bound at every completion, no excess delay and no delay when off at every wait; end-to-end: cumulative bound "
+        "per limit group at every observed I/O, total time <= bytes/limit. A trace is non-trivial when "
         "it moves at least one byte (distinct by hash of the case)."
     )
     xcheck = []
-    stream_traces(ctx, n, dyadic=False, flt=False, tag="fraction", xcheck=xcheck)
-    stream_traces(ctx, n // 3, dyadic=True, flt=True, tag="float_dyadic", xcheck=xcheck)
-    stream_units(ctx, n // 2, xcheck)
+
+    def guarded(name, f, *a, **kw):
+        """no stream may end the run: what escapes one is reported and the others still run"""
+        import traceback
+
+        try:
+            f(*a, **kw)
+        except Exception:  # noqa: BLE001
+            ctx.obligation_broken("harness-exception:" + name, traceback.format_exc()[-1500:])
+
+    guarded("fraction", stream_traces, ctx, n, dyadic=False, flt=False, tag="fraction", xcheck=xcheck)
+    guarded("float_dyadic", stream_traces, ctx, n // 3, dyadic=True, flt=True, tag="float_dyadic", xcheck=xcheck)
+    guarded("units", stream_units, ctx, n // 2, xcheck)
     if budget is None:
         try:
             check_wiring_live(ctx)
-        except (OSError, asyncio.TimeoutError) as e:
+        except Exception as e:  # noqa: BLE001
             ctx.obligation_broken("wiring-live-session", repr(e))
         if thorough:
-            stream_e2e(ctx)
+            guarded("e2e-loopback", stream_e2e, ctx)
+        guarded("sim", stream_sim, ctx)
+        guarded("histories", stream_histories, ctx)
+    # core writes the first five: put one of every (stream, key) kind first, and among the virtual-clock traces
+    # those on which nothing was raised (they show the arithmetic of a violation most plainly)
+    seen = {}
+    order = []
+    for v in ctx.violations:
+        r = v.get("replay") if isinstance(v.get("replay"), dict) else {}
+        kind = (r.get("stream"), r.get("key"))
+        seen[kind] = seen.get(kind, 0) + (0 if r.get("raised") else 1)
+        order.append((0 if not r.get("raised") and seen[kind] == 1 else 1, 1 if r.get("raised") else 0))
+    ctx.violations[:] = [v for _, v in sorted(zip(order, ctx.violations), key=lambda p: p[0])]
     from ..core import vm_crosscheck
 
     ok, out = vm_crosscheck(EXTRACT, xcheck[:60])
@@ -1198,6 +1999,7 @@ def search(ctx):
         return
     try:
         correspondence(ctx, budget=5000)
+        stream_sim(ctx)  # fresh random limits / sizes / timeouts for the end-to-end scenarios
     except Exception as e:
         ctx.notes.append(f"search aborted: {e!r}")
 
@@ -1215,6 +2017,22 @@ def replay(ctx, data):
         print("observed:", json.dumps(obs, indent=1))
         flat = [v for k, v in obs.items() if k != "keys" and not isinstance(v, list)] + list(obs["data_dict_is_control_dict"])
         return all(x is True for x in flat)
+    if "scenario" in r and isinstance(r["scenario"], dict):
+        sc = r["scenario"]
+        out = run_sim(sc)
+        hits = sim_oracle(sc, out) + sim_identity_oracle(sc, out)
+        live, expect = sim_expected(sc)
+        print("scenario:", json.dumps(sc))
+        print("moved:", out["moved"], "expected:", expect, "raised:", out["raised"], "virtual seconds:", out.get("t_end"))
+        print("identity of the limit objects held by the live sessions:", json.dumps(out.get("identity"), default=str))
+        for g in sim_groups(sc, out):
+            ents = [e for e in out["log"] if e["dir"] == g[2] and g[3](e)]
+            if ents:
+                tot = sum(e["n"] for e in ents if g[4](e))
+                dt = ents[-1]["t"] - ents[0]["t"]
+                print(f"  group {g[0]}: limit {g[1]} B/s {g[2]}: {tot} bytes in {dt:.3f} s = {tot / dt if dt else 0:.1f} B/s over {len({e['stream'] for e in ents})} streams")
+        print("oracle:", json.dumps(hits, default=str))
+        return not hits
     if "case" in r and isinstance(r["case"], dict):
         flt = r.get("stream") == "float_dyadic"
         events, objs = run_impl(r["case"], flt=flt)
@@ -1226,6 +2044,9 @@ def replay(ctx, data):
         viol, slack = oracle(Quiet(), r["case"], events, actor_ids(r["case"]), report=False)
         for e in events:
             print(_ev_json(e))
+        for o in run_impl.last_ops:
+            if not o["ok"]:
+                print("operation raised:", {k: str(v) for k, v in o.items()})
         print("oracle:", viol, "literal-bound excess within slack:", slack)
         if key == KNOWN_KEY:
             return slack == 0
